@@ -234,16 +234,16 @@ func VerifC18ValidateNative() {
 		if len(content) > len(v.ReplayBytes("report")) {
 			content = append(content, bytes.Repeat([]byte{'#'}, len(want)+16)...)
 		}
-		os.WriteFile(out, content, mode)
 		if prior == 2 {
-			os.Chmod(out, 0o444)
+			// "present and not writable": file modes do not bind root, a directory in the
+			// file's place refuses the write for every user
+			os.Mkdir(out, 0o755)
+		} else {
+			os.WriteFile(out, content, mode)
 		}
 	}
 	so, _, code := v.RunCmd(dir, acv, "validate", profile, data, out)
 	if v.ReplayBool("libErr") || prior == 2 {
-		if os.Geteuid() == 0 && prior == 2 && !v.ReplayBool("libErr") {
-			return // root ignores file modes; the read-only case cannot be reproduced as root
-		}
 		v.Assert("C18.exit-nonzero-on-failure", code != 0)
 		v.Assert("C18.no-stdout-on-failure", so == "")
 		return
